@@ -173,6 +173,10 @@ class Repo:
             self.parse_errors.append(f'{rel}: {e}')
             raise AnalysisError(f'cannot parse {rel}: {e}')
         set_parents(tree)
+        if os.environ.get('GXSTAT_NO_CANON') != '1':
+            # present every function in canonical form (attribute aliases inlined, continue-guards un-nested): see gxstat/inline.py
+            from .inline import canonicalise_module
+            canonicalise_module(tree)
         mi = ModuleInfo(rel=rel, path=path, tree=tree, source=src)
         for st in tree.body:
             if isinstance(st, ast.ClassDef):
